@@ -44,7 +44,7 @@ MIN_REACH = {
     "crops_whose_path_contains_pattern_characters": {"quick": 20, "thorough": 200},
     "reloads_through_load_crops": {"quick": 10, "thorough": 100},
     "resows_refused_for_their_shape": {"quick": 50, "thorough": 600},
-    "crops_whose_function_is_not_saved": {"quick": 15, "thorough": 300},
+    "crops_whose_function_is_not_saved": {"quick": 12, "thorough": 300},
     "pooled_grows_around_a_resow_that_replaced_the_function": {"quick": 12, "thorough": 200},
 }
 TIME_BUDGET = {"quick": 300, "thorough": 3000}
